@@ -571,18 +571,18 @@ class ValueMachine(Machine):
         if name in ASM_MODELS and all(isinstance(a, Ptr) and is_int(a.off) for a in args):
             # assembly kernel: arithmetic not modelled; every value written is an uninterpreted function of everything read
             reads = []
+            f64 = {'k': 'fp', 'bits': 64, 'bytes': 8, 's': 'double'}
             for (ai, kind, off, size) in ASM_MODELS[name]:
                 p = args[ai]
                 if kind == 'R':
-                    self.emit('R', Ptr(p.obj, p.off + off, p.via), size, i.loc, note='asm ' + name)
                     for o in range(0, size, 8):
-                        reads.append(self.vload_scalar(p.obj, signed(p.off, 64) + off + o, 8))
+                        v = self.load(Ptr(p.obj, p.off + off + o, p.via, p.slack), f64, i.loc)
+                        reads.append(v if isinstance(v, (Sym, float, int)) and not isinstance(v, bool) else sym('unk', id(v)))
             for (ai, kind, off, size) in ASM_MODELS[name]:
                 p = args[ai]
                 if kind == 'W':
-                    self.emit('W', Ptr(p.obj, p.off + off, p.via), size, i.loc, note='asm ' + name)
                     for o in range(0, size, 8):
-                        self.vstore_scalar(p.obj, signed(p.off, 64) + off + o, 8, sym('asm', name, ai, off + o, *reads))
+                        self.store(Ptr(p.obj, p.off + off + o, p.via, p.slack), sym('asm', name, ai, off + o, *reads), f64, i.loc)
             return None
         if name in ('rint', 'ceil', 'floor', 'fabs', 'sqrt', 'cos', 'sin', 'log2', 'exp2') and isinstance(args[0], Sym):
             return sym(name, args[0])
